@@ -32,13 +32,13 @@ CHECKS = {
     'C08': dict(level='exploration', ref='2/C08', tech='runtime monitoring: alias-heap operation histories vs a reference heap model, cycle attempts, ASan stack-overflow and CPU watchdog',
                 text='Random histories over aliased arrays/hashmaps run on the real VM and on a heap model; str of every live variable and the diagnostic class must match after each step; cycle attempts must be refused.',
                 note='trusts the reference heap model'),
-    'C09': dict(level='exploration', ref='2/C09', tech='sanitizers (ASan+UBSan incl. vptr, float-cast-overflow) + crash journal + CPU watchdog + allocation cap over boundary-value calls of every registered signature',
+    'C09': dict(level='exploration', ref='2/C09', tech='sanitizers (ASan+UBSan incl. vptr, float-cast-overflow) + crash journal + CPU watchdog + allocation cap over boundary-value calls of every registered signature, incl. code arguments that mutate the container being walked',
                 text='Every registered operator signature is called with boundary values of its registered types in an ASan+UBSan build; any crash, sanitizer report, escaped C++ exception, hang or oversized allocation is a violation.',
                 note='clean sanitizer run is not memory safety; value pools are finite; LOCATION/TASK/DISPLAY/CONTROL/NetObject values cannot be constructed'),
-    'C10': dict(level='fault_enumeration', ref='2/C10', tech='fault enumeration (all truncations, single-token mutations) of front-end inputs under ASan+UBSan with CPU watchdog, result-or-diagnostic and determinism oracles, CPU-time scaling ratio per input family',
+    'C10': dict(level='fault_enumeration', ref='2/C10', tech='fault enumeration (all truncations, single-token mutations) of front-end inputs under ASan+UBSan with CPU watchdog, result-or-diagnostic and determinism oracles, CPU-time scaling ratio per input family; a sample of the inputs again under valgrind memcheck (uninstrumented build)',
                 text='Every prefix and single-token mutation of corpus inputs is fed to the preprocessor, SQF parser and config parser (directly and through compile/preprocess__/configparse__); crash, sanitizer report, escaped exception, hang, silent failure or nondeterminism is a violation.',
                 note='corpus-relative; linear-time claim checked as CPU budget proportional to input length'),
-    'C11': dict(level='exploration', ref='2/C11', tech='runtime monitoring on a deterministic virtual clock: deadline monitor, abort diagnostics, loop iteration counters, run histories on aged VMs',
+    'C11': dict(level='exploration', ref='2/C11', tech='runtime monitoring on a deterministic virtual clock (clock queries and blocking sleeps interposed): deadline monitor, abort diagnostics, loop iteration counters, run histories on aged VMs',
                 text='Non-terminating programs of every loop kind run under a virtual clock; each run must end within limit+slack, report the time-limit diagnostic, leave the VM empty; aged VMs must run normally; while loops must respect the cap.',
                 note='virtual time advances per clock query; slack is logical'),
     'C12': dict(level='exploration', ref='2/C12', tech='runtime monitoring: offline checker over slice logs recorded by scheduler hooks (fairness, wake-up times, scriptDone, terminate, solo-trace equality)',
@@ -56,7 +56,7 @@ CHECKS = {
     'C16': dict(level='exploration', ref='2/C16', tech='runtime monitoring: content tokens returned by file operators on generated sandbox trees vs a reference resolver, canary files outside roots',
                 text='Generated mappings/trees/requests: the file content returned must be the token of the expected physical file and never that of a canary outside all roots.',
                 note='relative-path meaning asserted only where the statement fixes it'),
-    'C17': dict(level='fault_enumeration', ref='2/C17', tech='fault enumeration (every truncation point, byte flips, size-field corruptions) of archives from an independent packer under ASan+UBSan, reference parser for damaged files, allocation monitor (sanitizer malloc hook), FS snapshot oracle, real CLI front end (vcli)',
+    'C17': dict(level='fault_enumeration', ref='2/C17', tech='fault enumeration (every truncation point, byte flips, size-field corruptions) of archives from an independent packer under ASan+UBSan and again under valgrind memcheck (uninstrumented build), reference parser for damaged files, allocation monitor (sanitizer malloc hook), FS snapshot oracle, real CLI front end (vcli)',
                 text='Archives from an independent Python packer must read back exactly; every truncation/corruption must be rejected or expose intact entries only, with no crash, over-allocation or file-system modification.',
                 note='independent packer implements the documented PBO layout'),
     'C18': dict(level='exploration', ref='2/C18', tech='runtime monitoring: C API call histories vs a documented-return-code model, callback monitor, status and carry-over probes, virtual clock',
@@ -103,7 +103,7 @@ def main():
         'setup_cmd': './build.sh asan && ./build.sh asan vcli && ./build.sh tsan && ./build.sh plain',
         'hooks': {
             'guard': 'SQFVM_RUNTIME_VERIF',
-            'enable': 'harness/CMakeLists.txt compiles /repo/src/** (minus src/cli, src/sqc, src/unused) with -DSQFVM_RUNTIME_VERIF into the vh harness (flavours asan, tsan under .build/)',
+            'enable': 'harness/CMakeLists.txt compiles /repo/src/** (minus src/cli, src/sqc, src/unused) with -DSQFVM_RUNTIME_VERIF into the vh harness (flavours asan, tsan, plain under .build/)',
             'baseline_off_cmd': 'cmake --build /repo/_build && ctest --test-dir /repo/_build -j8 --timeout 900',
             'source_commits': hook_commits,
             'add_only': True,
